@@ -1,6 +1,7 @@
 import Props.C13
 import Props.C15
 import Props.C10
+import Props.C09
 
 /-!
 # C03 — the front end is total (the parts of totality that are logic)
@@ -9,7 +10,9 @@ The recursive-descent parser, resolver and type checker as a whole (mutually rec
 a shared cursor with back-tracking) have no Lean model; for them the claim "returns" is carried by
 the crash probe of `vlib/props/C03.py` only (a search, not a proof).  Proved here are the pieces of
 the front end that *are* modelled: the scanner always returns and is linear in the input, the type
-unifier and the initialisation walk are total functions with bounded results.
+unifier and the initialisation walk are total functions with bounded results, and the recursion
+through the sub-parsers of alias arguments is bounded by the number of tokens (exactly when every
+alias pattern contains a word).
 -/
 
 namespace DDP.C03
@@ -52,5 +55,89 @@ theorem bindOrLookup_grows_by_one (σ : DDP.Generics.Bindings) (n : Nat) (arg : 
 modules reachable through the import table -/
 theorem init_walk_bounded (g : DDP.Modules.Graph) (hr : DDP.Modules.Ranked g) (fuel m : Nat) (done : List Nat) :
     ∀ x ∈ DDP.Modules.visit g fuel m done, x ∈ done ∨ x ≤ m := DDP.Modules.visit_bound g hr fuel m done
+
+/-! ### the recursion through argument sub-parsers (`parser.checkAlias`) -/
+
+section
+open DDP.AliasMatch
+
+theorem firstMatch_mem (pats : List (List Pat)) (ts : List AliasMatch.Tok) (r : List Binding × List AliasMatch.Tok)
+    (h : firstMatch pats ts = some r) : ∃ p ∈ pats, matchPat p ts = some r := by
+  unfold firstMatch at h
+  obtain ⟨p, hp, hm⟩ := List.exists_of_findSome?_eq_some h
+  exact ⟨p, hp, hm⟩
+
+theorem sumSome_isSome (l : List (Option Nat)) (h : ∀ o ∈ l, o.isSome = true) : (sumSome l).isSome = true := by
+  induction l with
+  | nil => rfl
+  | cons o l ih =>
+    have ho := h o (by simp)
+    obtain ⟨n, rfl⟩ := Option.isSome_iff_exists.mp ho
+    have := ih (fun o' ho' => h o' (by simp [ho']))
+    obtain ⟨m, hm⟩ := Option.isSome_iff_exists.mp this
+    simp [sumSome, hm]
+
+/-- **Nested alias calls terminate.**  If every declared pattern contains a word, the recursion
+through argument sub-parsers needs no more stack than there are tokens: with fuel above the
+number of tokens it always returns. -/
+theorem nested_alias_parsing_terminates (pats : List (List Pat)) (hw : ∀ p ∈ pats, 0 < wordCount p) :
+    ∀ (f : Nat) (ts : List AliasMatch.Tok), ts.length < f → (parseToks pats f ts).isSome = true := by
+  intro f
+  induction f with
+  | zero => intro ts h; omega
+  | succ f ih =>
+    intro ts h
+    cases ts with
+    | nil => simp [parseToks]
+    | cons t r =>
+      simp only [parseToks]
+      cases hm : firstMatch pats (t :: r) with
+      | none => simp only; exact ih r (by simp at h; omega)
+      | some res =>
+        obtain ⟨bs, rest⟩ := res
+        obtain ⟨p, hp, hmp⟩ := firstMatch_mem pats _ _ hm
+        have hsh := arg_shorter_than_call p (t :: r) bs rest hmp (hw p hp)
+        obtain ⟨hpart, hnames, _⟩ := matchPat_partition p (t :: r) bs rest hmp
+        have hlen : (reassemble p bs).length + rest.length = (t :: r).length := by
+          conv => rhs; rw [hpart]
+          simp
+        have hcons : 0 < (reassemble p bs).length := by
+          have hl : bs.length = (params p).length := by rw [← hnames]; simp
+          rw [reassemble_length p bs hl]; have := hw p hp; omega
+        -- every argument is short enough for the induction hypothesis
+        have hargs : ∀ b ∈ bs, (parseToks pats f b.2).isSome = true := by
+          intro b hb
+          apply ih
+          have := (hsh b hb).1
+          simp at h hlen; omega
+        have hsum := sumSome_isSome (bs.map (fun b => parseToks pats f b.2)) (by
+          intro o ho
+          obtain ⟨b, hb, rfl⟩ := List.mem_map.mp ho
+          exact hargs b hb)
+        obtain ⟨a, ha⟩ := Option.isSome_iff_exists.mp hsum
+        have hrest := ih rest (by simp at h hlen; omega)
+        obtain ⟨n, hn⟩ := Option.isSome_iff_exists.mp hrest
+        simp [ha, hn]
+
+/-- **Without that rule they need not.**  The alias `"<x>"` (a pattern without a word, accepted by
+the pinned tree until 130575b) matches its own argument again: no amount of stack suffices.
+This is the unrecoverable stack overflow `KNOWN_SEEDS/single-parameter-alias` of the probe. -/
+theorem single_parameter_alias_diverges (f : Nat) :
+    parseToks [[.param 1]] f [⟨.num, 7⟩] = none := by
+  induction f with
+  | zero => rfl
+  | succ f ih =>
+    simp only [parseToks]
+    have : firstMatch [[Pat.param 1]] [⟨.num, 7⟩] = some ([(1, [⟨.num, 7⟩])], []) := by decide
+    simp [this, sumSome, ih]
+
+/-- non-vacuity: a pattern set with words, a nested call, and the count of sub-parsers started -/
+example :
+    let w (i : Nat) : AliasMatch.Tok := ⟨.num, i⟩
+    let lp : AliasMatch.Tok := ⟨.lparen, 0⟩; let rp : AliasMatch.Tok := ⟨.rparen, 0⟩; let dot : AliasMatch.Tok := ⟨.other, 9⟩
+    let pats := [[Pat.word (w 1), .param 10, .word ⟨.other, 2⟩, .param 11], [Pat.word (w 3), .param 10]]
+    parseToks pats 12 [w 1, ⟨.negate, 0⟩, w 30, ⟨.other, 2⟩, lp, w 3, lp, w 31, rp, rp, dot] = some 3 := by decide
+
+end
 
 end DDP.C03
